@@ -35,7 +35,7 @@ SYSTEMS = [
      "constants": [("BUFFER_SIZE", "VNum 2"), ("NUM_CONSUMERS", "VNum 2"), ("PRODUCER", "VNum 0")]},
     {"name": "loadbalancer", "go": "systems/loadbalancer/load_balancer.go", "tla": "systems/loadbalancer/load_balancer.tla",
      "constants": [("BUFFER_SIZE", "VNum 2"), ("NUM_CLIENTS", "VNum 2"), ("NUM_SERVERS", "VNum 2"), ("LoadBalancerId", "VNum 0"),
-                   ("GET_PAGE", "VNum 200"), ("WEB_PAGE", "VNum 42")]},
+                   ("GET_PAGE", "VNum 1"), ("WEB_PAGE", "VNum 99")]},
     {"name": "proxy", "go": "systems/proxy/proxy.go", "tla": "systems/proxy/proxy.tla",
      "constants": [("NUM_SERVERS", "VNum 2"), ("NUM_CLIENTS", "VNum 1"), ("EXPLORE_FAIL", "VBool true"), ("CLIENT_RUN", "VBool true")]},
     {"name": "shcounter", "go": "systems/shcounter/shcounter.go", "tla": "systems/shcounter/shcounter.tla",
@@ -56,7 +56,11 @@ SYSTEMS = [
      "constants": [("ExploreFail", "VBool true"), ("Debug", "VBool false"), ("NumServers", "VNum 2"), ("NumClients", "VNum 1"),
                    ("BufferSize", "VNum 2"), ("MaxTerm", "VNum 3"), ("MaxCommitIndex", "VNum 2"), ("MaxNodeFail", "VNum 1"),
                    ("LogConcat", "VStr \"c\""), ("LogPop", "VStr \"p\""), ("LeaderTimeoutReset", "VBool true"),
-                   ("NumRequests", "VNum 2"), ("AllStrings", "VSet [VStr \"a\"; VStr \"b\"]")]},
+                   ("NumRequests", "VNum 2"), ("AllStrings", "VSet [VStr \"k1\"; VStr \"v1\"]")],
+     "alt_constants": [[("ExploreFail", "VBool false"), ("Debug", "VBool false"), ("NumServers", "VNum 3"), ("NumClients", "VNum 1"),
+                        ("BufferSize", "VNum 4"), ("MaxTerm", "VNum 4"), ("MaxCommitIndex", "VNum 3"), ("MaxNodeFail", "VNum 1"),
+                        ("LogConcat", "VStr \"c\""), ("LogPop", "VStr \"p\""), ("LeaderTimeoutReset", "VBool true"),
+                        ("NumRequests", "VNum 3"), ("AllStrings", "VSet [VStr \"k1\"; VStr \"v1\"]")]]},
     {"name": "replicatedkv", "go": "systems/replicatedkv/replicated_kv.go", "tla": "systems/replicatedkv/replicated_kv.tla",
      "constants": [("BUFFER_SIZE", "VNum 2"), ("NUM_REPLICAS", "VNum 2"), ("NUM_CLIENTS", "VNum 1"), ("DISCONNECT_MSG", "VNum 1"),
                    ("GET_MSG", "VNum 2"), ("PUT_MSG", "VNum 3"), ("NULL_MSG", "VNum 4"), ("GET_RESPONSE", "VNum 5"),
@@ -464,6 +468,20 @@ def check_system(info, log):
         info["errors"].append("hygiene: forbidden construct in %s" % repr(bad[:3]))
 
 
+def ensure_walkdefs(info, log):
+    name = info["name"]
+    g = GEN_DIR + "/" + name
+    bind = "C02/Bind_%s.v" % name
+    with GenLock(name):
+        rel = g + "_walkdefs.v"
+        if stale(rel, BASE_DEPS[:4] + ["C02/Walk.v", bind, g + "_go.v", g + "_tla.v", g + "_trees.v"]):
+            rc, o, e = coqc(rel)
+            log.append("coqc %s rc=%d" % (rel, rc))
+            if rc != 0:
+                return "walk tables of %s do not compile: %s" % (name, (o + e)[-800:])
+    return None
+
+
 def run_walks(info, rnds, steps, log, focus=()):
     """run the two regenerated models against each other on the walks given by the lists of naturals.
     -> (list of mismatch dicts, {label: committed steps}, error or None)"""
@@ -614,3 +632,229 @@ def confirm_on_real_go_locksvc(info, m, log, num_clients=3):
     return {"status": "ran", "label_reached": so["label"], "real_outcome": so["outcome"], "real_post_state": so["post"],
             "real_go_agrees_with_go_model": go_ok, "real_go_agrees_with_tla_model": tla_ok,
             "confirmed": go_ok and not tla_ok and so["label"] == m.get("label")}
+
+
+# ---------------------------------------------------------------- seed corpus (coverage-guided reachable states, lib/c02_seedgen.py)
+
+def seeds_hash(info):
+    sysd = [x for x in SYSTEMS if x["name"] == info["name"]][0]
+    return sha(repr([a["hash"] for a in info["tla"]["actions"]]), repr(sysd.get("constants")), repr(sysd.get("alt_constants")))
+
+
+def load_seeds(info):
+    """seeds of this system computed with the CURRENT TLA+ translation (others are ignored) -> (list, note)"""
+    import gzip
+    p = os.path.join(vlib.VERIF, "corpus", "C02", "seeds_%s.json.gz" % info["name"])
+    if not os.path.exists(p):
+        return [], None
+    db = json.load(gzip.open(p, "rt"))
+    if db.get("tla_hash") != seeds_hash(info):
+        return [], "seed corpus of %s was computed with a different TLA+ translation or other constants: ignored" % info["name"]
+    return db["seeds"], None
+
+
+def scan_seeds(info, labels, log, limit=400):
+    """compare both trees of the given labels ("process.label") on the stored reachable states standing at them, over all
+    small choice vectors. -> (n states scanned, [mismatch dicts], note)"""
+    name = info["name"]
+    seeds, note = load_seeds(info)
+    sel = [(i, s) for i, s in enumerate(seeds) if s["label"] in labels][:limit]
+    if not sel:
+        return 0, [], note
+    e = ensure_walkdefs(info, log)
+    if e:
+        return 0, [], e
+    body = ["From PGV Require Import C02.Lang C02.Sem C02.Show C02.Walk %s.%s_walkdefs.\nOpen Scope string_scope.\nOpen Scope Z_scope.\n" % (GEN_NAME, name)]
+    rows = []
+    for i, sd in sel:
+        proc, lbl = sd["label"].split(".", 1)
+        body.append("Definition sd%d : gstate := %s.\n" % (i, sd["state"]))
+        rows.append('scan_seed (%s_W %d) "%s" "%s" sd%d "%d"' % (name, sd["cset"], proc, lbl, i, i))
+    body.append("Definition R := Eval vm_compute in filter (fun s => negb (String.eqb s \"\")) [%s].\nPrint R.\n" % ";\n ".join(rows))
+    rc, out, err = coq_scratch("C02_seeds_%s_%d" % (name, os.getpid()), "".join(body), timeout=900)
+    if rc != 0:
+        return 0, [], "seed scan failed: " + (out + err)[-600:]
+    flat = re.sub(r"\s+", " ", out).replace('""', '"')
+    mism = []
+    for mm in flat.split("#@#MISMATCH")[1:]:
+        sid = int(mm.split("#@#SEEDID", 1)[1].split("#@#ENDSEED")[0].strip())
+        mm = mm.split("#@#END")[0]
+        d = {"system": name, "seed": sid, "sched": seeds[sid]["sched"], "init_rnd": seeds[sid]["init_rnd"], "cset": seeds[sid]["cset"],
+             "rnd": [], "steps": 0, "focus": []}
+        for part in mm.split("#@#"):
+            if "=" in part:
+                k, v = part.split("=", 1)
+                d[k.strip()] = v.strip()
+        mism.append(d)
+    return len(sel), mism, note
+
+
+# ---------------------------------------------------------------- validation against the real generated Go through harness/steplib
+# (harness/cmd/c02s: dqueue, pbkvs, raftkvs; harness/cmd/c16 in the thorough tier for the other small systems)
+
+def _const_cfg(sysd, cset):
+    cs = ([sysd.get("constants", [])] + sysd.get("alt_constants", []))[cset]
+    cfg = {}
+    for k, v in cs:
+        m = re.match(r"VNum \(?(-?\d+)\)?$", v)
+        if m:
+            cfg[k] = int(m.group(1))
+        elif v == "VBool true":
+            cfg[k] = 1
+        elif v == "VBool false":
+            cfg[k] = 0
+    return cfg
+
+
+def _raft_proc(name, cfg):
+    n = cfg["NumServers"]
+    if name[0] == "s":
+        i, k = name[1:].split(".")
+        return ("s%d" % int(k), int(k) * n + int(i))
+    if name[0] == "c":
+        return ("client", 6 * n + int(name[1:]))
+    return ("crasher", 5 * n + int(name[1:]))
+
+
+def _bag_of_tuple(x):
+    """raftstep keeps network[d].queue as a sequence (send order); the spec has a bag: element -> count"""
+    items = []
+    for e in x["t"]:
+        for it in items:
+            if json.dumps(it[0], sort_keys=True) == json.dumps(e, sort_keys=True):
+                it[1] += 1
+                break
+        else:
+            items.append([e, 1])
+    return {"f": items}
+
+
+def _raft_adapt(state):
+    st = {k: v for k, v in state.items() if k != "timeout"}
+    if "network" in st:
+        nw = []
+        for node, rec in st["network"]["f"]:
+            nw.append([node, {"f": [[k, (_bag_of_tuple(v) if k == "queue" else v)] for k, v in rec["f"]]}])
+        st["network"] = {"f": nw}
+    return st
+
+
+REAL_SYSTEMS = {
+    "dqueue": {"bin": "c02s", "proc": lambda nm, cfg: ("Producer", 0) if nm == "producer" else ("Consumer", int(nm[1:]))},
+    "pbkvs": {"bin": "c02s", "proc": lambda nm, cfg: ("Replica", int(nm[1:])) if int(nm[1:]) <= cfg["NUM_REPLICAS"] else ("Client", int(nm[1:]))},
+    "raftkvs": {"bin": "c02s", "proc": _raft_proc, "adapt": _raft_adapt, "floor": {"m.req": 6}},
+    # served by harness/cmd/c16 (same output shape); thorough tier
+    "shcounter": {"bin": "c16", "proc": lambda nm, cfg: ("Node", int(nm[1:]))},
+    "loadbalancer": {"bin": "c16", "proc": lambda nm, cfg: ("LoadBalancer", 0) if nm == "lb" else
+                     (("Servers", int(nm[1:])) if nm[0] == "s" else ("Client", int(nm[1:])))},
+}
+
+
+def enc_to_coq(x):
+    """steplib.Enc JSON -> Coq term of type value (canonicalised by mkfun / set_of_list)"""
+    if x is None:
+        return "VDefault"
+    if isinstance(x, bool):
+        return "VBool true" if x else "VBool false"
+    if isinstance(x, (int, float)):
+        return "VNum (%d)" % int(x)
+    if isinstance(x, str):
+        return "VStr " + vlib.coq_str(x).replace("%string", "")
+    if "t" in x:
+        return "VTup [" + "; ".join(enc_to_coq(e) for e in x["t"]) + "]"
+    if "s" in x:
+        return "VSet (set_of_list [" + "; ".join(enc_to_coq(e) for e in x["s"]) + "])"
+    if "f" in x:
+        return "mkfun [" + "; ".join("(%s, %s)" % (enc_to_coq(k), enc_to_coq(v)) for k, v in x["f"]) + "]"
+    raise ValueError("cannot convert %r" % (x,))
+
+
+def _vstore(d):
+    return "[" + "; ".join('("%s", %s)' % (k, enc_to_coq(v)) for k, v in sorted(d.items())) + "]"
+
+
+def real_go_steplib(info, sysd, cset, n_sched, n_steps, rng, log):
+    """random schedules on the REAL generated archetypes; the regenerated Go model must reproduce every observed attempt
+    for some choice vector within the observed ceilings. -> (attempts compared, committed, [mismatch dicts], error)"""
+    import itertools
+    name = info["name"]
+    rs = REAL_SYSTEMS[name]
+    cfg = _const_cfg(sysd, cset)
+    # one probing case to learn the proc names
+    rc, res, err = vlib.run_jsonl(rs["bin"], [{"id": 0, "system": name, "cfg": cfg, "sched": []}], timeout=120)
+    if rc != 0 or not res or res[0].get("err"):
+        return 0, 0, [], "harness %s failed on %s: %s" % (rs["bin"], name, (res[0].get("err") if res else err[-300:]))
+    procs = res[0]["procs"]
+    cases = [{"id": i, "system": name, "cfg": cfg,
+              "sched": [[rng.choice(procs), [rng.randrange(0, 6) for _ in range(4)]] for _ in range(n_steps)]} for i in range(n_sched)]
+    rc, res, err = vlib.run_jsonl(rs["bin"], cases, timeout=900)
+    if rc != 0 or len(res) != len(cases):
+        return 0, 0, [], "harness %s failed (rc=%d, %d/%d results): %s" % (rs["bin"], rc, len(res), len(cases), err[-300:])
+    e = ensure_walkdefs(info, log)
+    if e:
+        return 0, 0, [], e
+    adapt = rs.get("adapt", lambda s: s)
+    head = ("From PGV Require Import C02.Lang C02.Sem C02.Show C02.Walk C02.Bind_%s %s.%s_tla %s.%s_walkdefs.\nOpen Scope string_scope.\nOpen Scope Z_scope.\n"
+            "Definition W := %s_W %d.\n"
+            "Definition base : gstate := match init_state W (w_init W) [] [] with Ok s => s | Err _ => [] end.\n"
+            "Definition inst (p : string) : instance := match lookup p %s_instances with Some i => i | None => mkInst \"\" [] [] end.\n"
+            % (name, GEN_NAME, name, GEN_NAME, name, name, cset, name))
+    rows, defs, committed = [], [], 0
+    gi = 0
+    for r in res:
+        if r.get("err"):
+            return 0, 0, [], "harness: " + r["err"]
+        locs = {p: {".pc": r["pcs0"][p]} for p in r["procs"]}
+        defs.append("Definition g%d := %s.\n" % (gi, _vstore(adapt(r["init"]))))
+        cur = gi
+        gi += 1
+        for so in r["steps"]:
+            p = so["proc"]
+            tproc, self_ = rs["proc"](p, cfg)
+            lpre = dict(locs[p])
+            if so["outcome"] in ("finished", "done") or not so.get("label"):
+                continue
+            lpost = dict(lpre)
+            if so["outcome"] == "commit":
+                lpost.update(so.get("locals") or {})
+                lpost[".pc"] = so["pc"] or lpre[".pc"]
+                committed += 1
+            defs.append("Definition g%d := %s.\n" % (gi, _vstore(adapt(so["state"]))))
+            ceil = [max(int(c["ceiling"]), rs.get("floor", {}).get(c["id"], 1)) for c in (so.get("choices") or [])][:4]
+            while ceil and _prod(ceil) > 300:
+                ceil[ceil.index(max(ceil))] -= 1
+            cands = [list(t) for t in itertools.product(*[range(c) for c in ceil])] or [[]]
+            lbl = so["label"].split(".", 1)[1] if "." in so["label"] else so["label"]
+            kind = so["outcome"] if not so["outcome"].startswith("error") else "error:" + so["outcome"].split(":", 1)[1]
+            rows.append('real_obs_ok W %s_tla_locals (inst "%s") "%s" "%s" (VNum %d) base g%d %s [%s]%%nat "%s" g%d %s' % (
+                name, tproc, tproc, lbl, self_, cur, _vstore(lpre),
+                "; ".join("[" + "; ".join(str(k) for k in c) + "]" for c in cands), kind, gi, _vstore(lpost)))
+            if so["outcome"] == "commit":
+                locs[p] = lpost
+            cur = gi
+            gi += 1
+    out = ""
+    for s0_ in range(0, len(rows), 150):
+        body = head + "".join(defs) + "Definition R := Eval vm_compute in cat [%s].\nPrint R.\n" % ";\n ".join(rows[s0_:s0_ + 150])
+        rc, o, err = coq_scratch("C02_reals_%s_%d" % (name, os.getpid()), body, timeout=1500)
+        if rc != 0:
+            return 0, 0, [], "evaluation of the real-Go comparison of %s failed: %s" % (name, (o + err)[-800:])
+        out += o
+    flat = re.sub(r"\s+", " ", out).replace('""', '"')
+    mism = []
+    for mm in flat.split("#@#REAL")[1:]:
+        mm = mm.split("#@#END")[0]
+        d = {"system": name}
+        for part in mm.split("#@#"):
+            if "=" in part:
+                k, v = part.split("=", 1)
+                d[k.strip()] = v.strip()
+        mism.append(d)
+    return len(rows), committed, mism, None
+
+
+def _prod(xs):
+    p = 1
+    for x in xs:
+        p *= x
+    return p
